@@ -16,7 +16,7 @@ RULE = ("kinds: arith (every ordered pair of the four spatial-vector classes x l
         "symmetry, sum, I*a, I*v), transform (SE3 * vector = Ad x or Ad' x, class preserved). Vector magnitudes 1e-6..1e6. "
         "Non-trivial: all six components non-zero (vectors), centre of mass != 0 (inertia), rotation and translation both "
         "non-zero (transform).")
-RULE = RULE + probes.RULE_TEXT
+RULE = RULE + probes.RULE_TEXT + probes.VARIANT_TEXT
 ASSUMPTIONS = ["1e-9 relative to the product of operand magnitudes", "reference adjoint from pbt/refs.py"]
 
 VCLASSES = ["SpatialVelocity", "SpatialAcceleration", "SpatialForce", "SpatialMomentum"]
@@ -72,7 +72,7 @@ def s_transform():
 
 
 def check_case(case):
-    if case.get("kind") in ("hist", "aug"):
+    if case.get("kind") in ("hist", "aug", "variant"):
         return probes.run(case, PROPERTY_ID)
     return {"arith": _arith, "cross": _cross, "inertia": _inertia, "transform": _transform}[case["kind"]](case)
 
@@ -319,7 +319,7 @@ def _transform(case):
 
 
 def classify(case):
-    if case.get("kind") in ("hist", "aug"):
+    if case.get("kind") in ("hist", "aug", "variant"):
         return probes.classify(case)
     k = case["kind"]
     lab = {"kind:" + k: True}
